@@ -167,6 +167,31 @@ def _single_var_fn(term):
     return res
 
 
+class _ForeignModel(object):
+    """model of a solver living in another z3 context: terms are translated there, values back"""
+
+    def __init__(self, model, ctx2):
+        self.m, self.c2 = model, ctx2
+
+    def eval(self, t, model_completion=False):
+        return self.m.eval(t.translate(self.c2), model_completion=model_completion).translate(z3.main_ctx())
+
+
+class _ForeignSolver(object):
+    def __init__(self, solver, ctx2):
+        self.s, self.c2 = solver, ctx2
+
+    def check(self):
+        r = self.s.check()
+        return {str(z3.sat): z3.sat, str(z3.unsat): z3.unsat}.get(str(r), z3.unknown)
+
+    def model(self):
+        return _ForeignModel(self.s.model(), self.c2)
+
+    def reason_unknown(self):
+        return self.s.reason_unknown()
+
+
 class Explorer(object):
     """Depth-first exploration of the feasible paths of `fn(explorer)` by re-execution."""
 
@@ -235,22 +260,41 @@ class Explorer(object):
             #  'rlimit'  : default strategy under a resource limit, stopped from outside by interrupt()
             #              (settles the air/vacuum queries in 17 s that the first leaves unknown after 300 s)
             order = ('rlimit', 'timeout') if self.fresh_strategy == 'rlimit-first' else ('timeout', 'rlimit')
+            # 'reparse': the formula is printed as SMT-LIB text and read back into a NEW z3 context.  z3's
+            # non-linear core orders variables by AST creation order; in a long-lived context that order is an
+            # accident of the path's history, and the same query that comes back unknown after 120 s was sat
+            # in 0.02 s when re-read from its own text.  Tried first (cheap), then the two in-context strategies.
+            order = ('reparse',) + order
             budget_ms = self.solver_timeout_ms
             for k, strat in enumerate(order):
-                fresh = z3.Solver() if self.logic is None else z3.SolverFor(self.logic)
-                # (do not keep these solvers alive: retaining them slowed later queries on the same context dramatically)
-                fresh.add(self.solver.assertions())
-                fresh.add(*assumptions)
-                share = budget_ms if k == 0 else budget_ms // 2
+                share = min(10000, budget_ms // 10) if strat == 'reparse' else (budget_ms if k == 1 else budget_ms // 2)
                 timer = None
-                if strat == 'timeout':
-                    fresh.set('timeout', int(share))
+                if strat == 'reparse':
+                    try:
+                        dump = z3.Solver() if self.logic is None else z3.SolverFor(self.logic)
+                        dump.add(self.solver.assertions())
+                        dump.add(*assumptions)
+                        text = dump.to_smt2()
+                        c2 = z3.Context()
+                        fresh = z3.Solver(ctx=c2) if self.logic is None else z3.SolverFor(self.logic, ctx=c2)
+                        fresh.from_string(text)
+                        fresh.set('timeout', int(share))
+                        fresh = _ForeignSolver(fresh, c2)
+                    except z3.Z3Exception:
+                        continue
                 else:
-                    fresh.set('rlimit', RLIMIT_PER_MS * int(share))
-                    import threading
-                    timer = threading.Timer(share / 1000.0, fresh.ctx.interrupt)
-                    timer.daemon = True
-                    timer.start()
+                    fresh = z3.Solver() if self.logic is None else z3.SolverFor(self.logic)
+                    # (do not keep these solvers alive: retaining them slowed later queries on the same context dramatically)
+                    fresh.add(self.solver.assertions())
+                    fresh.add(*assumptions)
+                    if strat == 'timeout':
+                        fresh.set('timeout', int(share))
+                    else:
+                        fresh.set('rlimit', RLIMIT_PER_MS * int(share))
+                        import threading
+                        timer = threading.Timer(share / 1000.0, fresh.ctx.interrupt)
+                        timer.daemon = True
+                        timer.start()
                 try:
                     r = fresh.check()
                 finally:
@@ -261,6 +305,15 @@ class Explorer(object):
                 if r != z3.unknown:
                     break
         self.solver_s += time.time() - t
+        if r == z3.unknown and os.environ.get('PATHSYM_DUMP_UNKNOWN'):
+            try:
+                dump = z3.Solver()
+                dump.add(self.solver.assertions())
+                dump.add(*assumptions)
+                with open(os.path.join(os.environ['PATHSYM_DUMP_UNKNOWN'], 'unknown_%d_%d.smt2' % (os.getpid(), self.queries)), 'w') as f:
+                    f.write(dump.to_smt2())
+            except Exception:
+                pass
         if r == z3.unknown:
             raise Inconclusive('solver unknown (%s) in %s' % (self._answered.reason_unknown(), self.name))
         return r == z3.sat
